@@ -293,7 +293,8 @@ impl Machine for Tl {
                 (Some(self.execute_ix(slot, self.key_of(by), sh)), vec![self.key_of(by)], ok)
             }
             Act::IncreaseDelay(d, by) => {
-                let ok = by == Who::Admin && s.delay + d as u64 <= u32::MAX as u64;
+                // a zero delta is rejected by the program (the delay only ever increases)
+                let ok = by == Who::Admin && d != 0 && s.delay + d as u64 <= u32::MAX as u64;
                 let ix = Instruction { program_id: k.tid, accounts: gmsol_timelock::accounts::IncreaseDelay { authority: self.key_of(by), store: k.store, timelock_config: k.config, store_program: k.pid }.to_account_metas(None), data: gmsol_timelock::instruction::IncreaseDelay { delta: d }.data() };
                 (Some(ix), vec![self.key_of(by)], ok)
             }
@@ -437,7 +438,7 @@ pub fn run_c36(cli: &Cli) -> Report {
         e2::replay_into(&mut rep, &tl, &[start], rv);
         return rep;
     }
-    let depth = if th { 7 } else { 6 };
+    let depth = if th { 10 } else { 8 };
     let o = e2::explore(&mut rep, "timelock protocol", &tl, vec![start], &e2::Config { depth, max_states: 20_000_000 }, json!({"thorough": th}));
     // vacuity guards: executions and rejections of every kind must have occurred
     for needed in ["Execute:ok", "Execute:err", "Approve:ok", "Approve:err", "Cancel:ok", "Create:ok", "Create:err", "IncreaseDelay:ok"] {
